@@ -277,3 +277,16 @@ Fixpoint wf (p : pt) : Prop :=
 Definition vanishes (rho : env) (e : expr) : bool := res_closed rho e && negb (is_some (eval rho e)).
 Definition guard_C03_function_zero (p : pt) (rho : env) (drop : list ident) : bool :=
   forallb (fun o => match o with OF e r => negb (vanishes r e) | _ => true end) (obs p rho drop).
+
+(* ---- the guard made exact (round 6).  Only the obligations up to and including the first one that does not hold
+   can matter: nothing behind it is ever reached, neither by the ideal instantiation nor by the code.
+   `upto_fail l`: the prefix of l that ends with its first failing obligation (all of l when every obligation holds).
+   The tight guard is false exactly when the obligation that decides the ideal verdict is the expression of a function
+   atom (or a time dependent ParallelChannelPT value) whose missing name vanishes symbolically. ---- *)
+Fixpoint upto_fail (l : list ob) : list ob :=
+  match l with
+  | [] => []
+  | o :: r => o :: (if stat_ok (ob_stat o) then upto_fail r else [])
+  end.
+Definition guard_C03_function_zero_tight (p : pt) (rho : env) (drop : list ident) : bool :=
+  forallb (fun o => match o with OF e r => negb (vanishes r e) | _ => true end) (upto_fail (obs p rho drop)).
